@@ -118,6 +118,10 @@ def grid_cases(tier):
         cases.append(("twin", chan_spec(min_avg_amp=1.0, clock=4, min_dur=16), "min_avg", kind, rel, D))
         cases.append(("twin", chan_spec(max_det=20.0, clock=4, min_dur=16), "max_det", kind, rel, D))
         cases.append(("twin", chan_spec(clock=4, min_dur=16), "dmm_bottom", kind, rel, D))
+    # G1d history: after a pulse was accepted, the caller goes on USING the arrays it can read from that pulse (unit conversion,
+    # masking, normalisation in place): the pulse that is scheduled stays the one that was validated
+    for kind, edit in itertools.product(["constant", "ramp", "blackman", "interpolated", "composite", "custom"], ["scale", "nan", "zero"]):
+        cases.append(("alias", chan_spec(max_amp=L, max_det=20.0, min_avg_amp=0.5, clock=4, min_dur=16), kind, edit))
     # G2 detuning limits
     M = 20.0
     for max_det, kind, d in itertools.product(
@@ -281,6 +285,48 @@ def grid_case(case):
             if verdict is True and not ok:
                 return [(f"C01:valid-pulse-refused-after-its-twin:{lim}", f"{wk} at {1 + rel:.7f} x the limit after the pulse at the limit")]
             return [("@twin:" + ("accepted" if ok else "refused") + ":" + str(verdict), "")]
+        if kind == "alias":
+            _, p, wk, edit = case
+            from pulser import Pulse
+
+            try:
+                awf, dwf = make_wf(peak_spec(wk, 100, 5.0)), make_wf(peak_spec(wk if wk in DET_KINDS else "ramp", 100, -10.0))
+                pulse = Pulse(awf, dwf, 0.0)
+            except Exception:
+                return [("@unbuildable", "")]
+            w = _world(p)
+            seq = w.fresh()
+            seq.declare_channel("g", "rydberg_global")
+            try:
+                seq.add(pulse, "g")
+            except Exception:
+                return [("@refused:alias", "")]
+            before = _sched_pulses(seq, "g")[-1]
+            a0, d0 = np.array(before.pulse.amp, copy=True), np.array(before.pulse.det, copy=True)
+            touched = 0
+            for wf in (pulse.amplitude, pulse.detuning, seq._schedule["g"].slots[-1].type.amplitude):
+                for get in (lambda x: x.samples, lambda x: x.samples.as_array(), lambda x: np.asarray(x.samples.as_array(detach=True))):
+                    try:
+                        arr = get(wf)
+                        if edit == "scale":
+                            arr *= 7.5
+                        elif edit == "nan":
+                            arr[len(arr) // 2] = float("nan")
+                        else:
+                            arr[:] = 0.0
+                        touched += 1
+                    except Exception:
+                        pass  # a read-only or immutable view is fine
+            try:
+                seq.add(Pulse.ConstantPulse(52, 1.0, 0.0, 0.0), "g")
+            except Exception:
+                pass
+            after = _sched_pulses(seq, "g")[0]
+            if not (np.array_equal(after.pulse.amp, a0, equal_nan=False) and np.array_equal(after.pulse.det, d0, equal_nan=False)):
+                v2, why2 = inside(after.pulse.amp, after.pulse.det, after.tf - after.ti, p)
+                return [(f"C01:scheduled-pulse-follows-the-callers-edits-of-arrays-it-read:{wk}:{edit}",
+                         f"after editing the arrays read from the accepted pulse in place the scheduled pulse changed (now {'outside: ' + why2 if v2 is False else 'still inside'} the limits)")]
+            return [("@alias:" + ("edited" if touched else "immutable"), "")]
         if kind == "add-avg":
             _, p, ak, delta, D = case
             from pulser import Pulse
